@@ -630,6 +630,21 @@ def run(only=None):
         hist.poisoned_histories(s, funcs, bad_args, probes)
         s.done()
 
+    if want("kept_results"):
+        s = rep.sub("kept_results", "per codec: encode and every extractor on 16 messages in a row with every returned bitarray kept by the caller: after the last call "
+                                    "each is still the result of its own call")
+        for code, K_, enc_f, ext_fs in (
+            ("32_11", 11, lambda b: VBPTC3211.encode(b, True), (VBPTC3211.deinterleave_data_bits, VBPTC3211.deinterleave_all_bits)),
+            ("128_72", 72, VBPTC12873.encode, (VBPTC12873.deinterleave_data_bits, VBPTC12873.deinterleave_all_bits, VBPTC12873.deinterleave_cs5_bits)),
+            ("68_28", 28, VBPTC6828.encode, (VBPTC6828.deinterleave_data_bits, VBPTC6828.deinterleave_all_bits, VBPTC6828.deinterleave_crc8_bits)),
+        ):
+            km = [env.det_bits(f"c09-kept-{code}-{i}", K_) for i in range(16)]
+            hist.kept_results(s, f"{code}.encode", [({"code": code, "message": m}, (lambda m=m, enc_f=enc_f: enc_f(bitarray(m)))) for m in km], obs=lambda r: r.to01())
+            cws = [enc_f(bitarray(m)).to01() for m in km]
+            for f in ext_fs:
+                hist.kept_results(s, f"{code}.{f.__name__}", [({"code": code, "message": m}, (lambda c=c, f=f: f(bitarray(c)))) for m, c in zip(km, cws)], obs=lambda r: r.to01())
+        s.done()
+
     if want("long_call_history"):
         s = rep.sub("long_call_history",
                     "encode / extract of one fixed message per codec called again and again in one process: the result never depends on how "
